@@ -111,6 +111,7 @@ class World(object):
         self.iterations = 0
         self.prov = None
         self.snapshots = []       # per-iteration observations
+        self.frames = []          # byte strings handed to the PDU decoders
 
     # ---- transport -----------------------------------------------------
     def readable(self):
@@ -224,6 +225,14 @@ def run_provider(script, acceptor=True, max_pdu_length=65536, store_in_file=froz
             def is_killed(self, v):
                 killed_flag[0] = bool(v)
 
+            def _process_incoming(self):
+                # observation only: the byte string taken off the buffer and handed to the PDU decoders
+                before = self.raw_pdu
+                r = dulprovider.DULServiceProvider._process_incoming(self)
+                if len(self.raw_pdu) < len(before):
+                    w.frames.append(bytes(before[:len(before) - len(self.raw_pdu)]))
+                return r
+
         sock = FakeSocket(w) if acceptor else None
         prov = ScriptedProvider(store_in_file, get_file_cb, sock, max_pdu_length)
         if accepted_contexts is not None:
@@ -248,7 +257,7 @@ def run_provider(script, acceptor=True, max_pdu_length=65536, store_in_file=froz
             except queue.Empty:
                 break
         return dict(outcome=outcome, exc=exc, wire=list(w.wire), log=list(w.log), given=given,
-                    final=observe_state(prov, w), snapshots=w.snapshots, iterations=w.iterations,
+                    final=observe_state(prov, w), snapshots=w.snapshots, iterations=w.iterations, frames=list(w.frames),
                     unread=len(w.pending), script_left=len(w.script), loop_exited=prov._is_killed.is_set())
     finally:
         fsm.socket, dulprovider.time, dulprovider.select = saved
@@ -349,6 +358,13 @@ def run_providers_interleaved(scripts, order, acceptor=True, max_pdu_length=6553
                 @is_killed.setter
                 def is_killed(self, v):
                     killed_flag[0] = bool(v)
+
+                def _process_incoming(self):
+                    before = self.raw_pdu
+                    r = dulprovider.DULServiceProvider._process_incoming(self)
+                    if len(self.raw_pdu) < len(before):
+                        w.frames.append(bytes(before[:len(before) - len(self.raw_pdu)]))
+                    return r
             sock = FakeSocket(w) if acceptor else None
             prov = ScriptedProvider(frozenset(), None, sock, max_pdu_length)
             prov._in_loop = True
@@ -370,7 +386,7 @@ def run_providers_interleaved(scripts, order, acceptor=True, max_pdu_length=6553
                 except queue.Empty:
                     break
             results[k] = dict(outcome=outcome, exc=exc, wire=list(w.wire), log=list(w.log), given=given,
-                              final=observe_state(prov, w), snapshots=w.snapshots, iterations=w.iterations,
+                              final=observe_state(prov, w), snapshots=w.snapshots, iterations=w.iterations, frames=list(w.frames),
                               unread=len(w.pending), script_left=len(w.script), loop_exited=prov._is_killed.is_set())
         threads = [threading.Thread(target=worker, args=(k,)) for k in range(len(scripts))]
         for t in threads:
